@@ -65,6 +65,9 @@ func runC06(ctx *vh.Ctx) error {
 		return gcase5.Evaluate(ctx, "C06", &c, false)
 	}
 	n := ctx.N(6000, 60000)
+	if !c05FamilyOn("main") {
+		n = 0
+	}
 	for i := 0; i < n && ctx.TimeLeft(); i++ {
 		c := c06Gen(ctx, i)
 		c.CfgFwdStale = &other
